@@ -276,6 +276,16 @@ func init() {
 	// verifSymbolic(x): true in the engine when x holds symbolic data (used by
 	// harnesses only to skip work that is pointless on concrete replays).
 	h("verifIsEngine", func(fr *frame, a []value) value { return true })
+	// verifFreeze(root): until verifThaw, stores into memory reachable from
+	// root are violations of kind "write".
+	h("verifFreeze", func(fr *frame, a []value) value {
+		fr.ex.freeze(a[0])
+		return nil
+	})
+	h("verifThaw", func(fr *frame, a []value) value {
+		fr.ex.frozen = nil
+		return nil
+	})
 }
 
 func (ex *Exec) funcID(name string) int {
